@@ -420,6 +420,29 @@ def run_versions(ctx, spec):
                     if protocol.get_arg_name('vq_only_f%d' % j, 'x', 0) != 'pf%d' % j:
                         ctx.violation('version-lost-interface', 'interface vq_only_f%d lost' % j, {'versions': versions})
         ctx.sample({'versions_example': sets[2], 'orders': 'all permutations'})
+        # a qualified enum reference across files: the user interface wins from one file, the enum's owner from the other
+        # (each interface is described by its own highest version, wherever the reference is written)
+        XF = '''<?xml version="1.0"?><protocol name="vq_cross_%(f)s">
+<interface name="vq_cx_user" version="%(uv)d"><request name="m"><arg name="k_%(f)s" type="uint" enum="vq_cx_owner.e"/><arg name="b" type="uint" enum="vq_cx_owner.bits"/></request></interface>
+<interface name="vq_cx_owner" version="%(ov)d"><enum name="e">%(entries)s</enum><enum name="bits" bitfield="true">%(bits)s</enum></interface>
+</protocol>'''
+        ent = lambda names: ''.join('<entry name="%s" value="%d"/>' % (n, i + 1) for i, n in enumerate(names))
+        bit = lambda names: ''.join('<entry name="%s" value="%d"/>' % (n, 1 << i) for i, n in enumerate(names))
+        pa, pb = os.path.join(d, 'cross_a.xml'), os.path.join(d, 'cross_b.xml')
+        open(pa, 'w').write(XF % {'f': 'a', 'uv': 2, 'ov': 1, 'entries': ent(['one_a']), 'bits': bit(['r_a'])})
+        open(pb, 'w').write(XF % {'f': 'b', 'uv': 1, 'ov': 2, 'entries': ent(['one_b', 'two_b']), 'bits': bit(['r_b', 'g_b', 'b_b'])})
+        for order in ([pa, pb], [pb, pa]):
+            protocol.dump_all()
+            for p in order:
+                protocol.load(p, out)
+            ctx.ev()
+            ctx.sig(['cross-file-enum', [os.path.basename(p) for p in order]])
+            got = (protocol.get_arg_name('vq_cx_user', 'm', 0), protocol.look_up_enum('vq_cx_user', 'm', 0, 1), protocol.look_up_enum('vq_cx_user', 'm', 0, 2),
+                   protocol.look_up_enum('vq_cx_user', 'm', 1, 6))
+            want = ('k_a', ['one_b'], ['two_b'], ['g_b', 'b_b'])
+            if got != want:
+                ctx.violation('version-precedence', 'vq_cx_user (v2 in file a, v1 in b) refers to vq_cx_owner.e (v1 in a, v2 in b), loaded in order %r: name / labels %r, '
+                              'each interface\'s highest version gives %r' % ([os.path.basename(p) for p in order], got, want), {'versions': 'cross-file'})
         # through the pipeline once: the display uses the winner
         protocol.dump_all()
         for p, j, v in files:
